@@ -293,16 +293,19 @@ pub fn getsockname_port(fd: i32) -> Option<u16> {
 /// Are these two descriptors the two ends of one TCP connection (each one's local address is the other's
 /// peer address)? With many workers binding and connecting loopback ports, a listener can be reached by a
 /// client that is not the one the case made; a pair that is not a pair says nothing about the library.
+/// (address, port) of a TCP socket's own (`peer` false) or remote end
+pub fn tcp_name(fd: i32, peer: bool) -> Option<(u32, u16)> {
+    unsafe {
+        let mut sa: libc::sockaddr_in = core::mem::zeroed();
+        let mut len = core::mem::size_of::<libc::sockaddr_in>() as libc::socklen_t;
+        let p = &mut sa as *mut libc::sockaddr_in as *mut libc::sockaddr;
+        let r = if peer { libc::getpeername(fd, p, &mut len) } else { libc::getsockname(fd, p, &mut len) };
+        (r == 0 && i32::from(sa.sin_family) == libc::AF_INET).then_some((sa.sin_addr.s_addr, sa.sin_port))
+    }
+}
+
 pub fn tcp_same_connection(a: i32, b: i32) -> bool {
-    let name = |fd: i32, peer: bool| -> Option<(u32, u16)> {
-        unsafe {
-            let mut sa: libc::sockaddr_in = core::mem::zeroed();
-            let mut len = core::mem::size_of::<libc::sockaddr_in>() as libc::socklen_t;
-            let p = &mut sa as *mut libc::sockaddr_in as *mut libc::sockaddr;
-            let r = if peer { libc::getpeername(fd, p, &mut len) } else { libc::getsockname(fd, p, &mut len) };
-            (r == 0 && i32::from(sa.sin_family) == libc::AF_INET).then_some((sa.sin_addr.s_addr, sa.sin_port))
-        }
-    };
+    let name = tcp_name;
     match (name(a, false), name(a, true), name(b, false), name(b, true)) {
         (Some(al), Some(ap), Some(bl), Some(bp)) => al == bp && ap == bl,
         _ => false,
